@@ -55,8 +55,8 @@ type world struct {
 }
 
 var (
-	current   atomic.Pointer[world]
-	assocCtr  atomic.Int64
+	current  atomic.Pointer[world]
+	assocCtr atomic.Int64
 )
 
 type udpHandler struct{}
@@ -181,6 +181,10 @@ type env struct {
 	sentTo  map[int]int // datagrams sent per client
 	// mustDeliver lists (client, seq) of datagrams that may not be lost (see the finish action)
 	mustDeliver [][2]int
+	// sizes of the datagrams sent per client, by sequence number; ended: clients whose association was (or may have
+	// been) ended by the history - for the others every single datagram has to arrive
+	sizes map[int][]int
+	ended map[int]bool
 }
 
 func addr(c int) net.Addr { return &net.UDPAddr{IP: net.IPv4(10, 0, 0, byte(10+c)), Port: 4000 + c} }
@@ -201,7 +205,9 @@ func (e *env) datagram(c int, cmd string, size int) []byte {
 }
 
 func (e *env) send(c int, cmd string, size int) bool {
-	ok := e.pc.Inject(e.datagram(c, cmd, size), addr(c), 3*time.Second)
+	d := e.datagram(c, cmd, size)
+	e.sizes[c] = append(e.sizes[c], len(d))
+	ok := e.pc.Inject(d, addr(c), 3*time.Second)
 	e.sentTo[c]++
 	return ok
 }
@@ -221,7 +227,7 @@ func start(t *rapid.T, idle time.Duration) *env {
 	if err != nil {
 		t.Fatalf("provision: %v", err)
 	}
-	e := &env{t: t, w: &world{idle: idle}, pc: hx.NewFakePacketConn(), srvErr: make(chan error, 1), srvPan: make(chan any, 1), seq: map[int]int{}, sentTo: map[int]int{}}
+	e := &env{t: t, w: &world{idle: idle}, pc: hx.NewFakePacketConn(), srvErr: make(chan error, 1), srvPan: make(chan any, 1), seq: map[int]int{}, sentTo: map[int]int{}, sizes: map[int][]int{}, ended: map[int]bool{}}
 	current.Store(e.w)
 	go func() {
 		defer func() {
@@ -262,7 +268,7 @@ func runHistory(t *rapid.T, idle time.Duration) {
 			}
 		}
 	}
-	endedOnce := false
+	endedOnce, stampeded := false, false
 	t.Repeat(map[string]func(*rapid.T){
 		"send": func(t *rapid.T) {
 			c := rapid.IntRange(0, nclients-1).Draw(t, "c")
@@ -287,6 +293,7 @@ func runHistory(t *rapid.T, idle time.Duration) {
 			}
 			follow := rapid.IntRange(0, 12).Draw(t, "followers") // datagrams racing with the association's end
 			e.history = append(e.history, fmt.Sprintf("finish(c%d,%q,+%d)", c, cmd, follow))
+			e.ended[c] = true
 			check(e.send(c, cmd, 10), "finish")
 			for i := 0; i < follow && !wedged; i++ {
 				// Datagrams that were already queued on the association when it ended may be dropped (its queue
@@ -304,9 +311,32 @@ func runHistory(t *rapid.T, idle time.Duration) {
 			c := rapid.IntRange(0, nclients-1).Draw(t, "c")
 			n := rapid.IntRange(1, 30).Draw(t, "n")
 			e.history = append(e.history, fmt.Sprintf("nomatch(c%d,%d)", c, n))
+			e.ended[c] = true
 			for i := 0; i < n && !wedged; i++ {
 				ok := e.pc.Inject([]byte(noMatch), addr(c), 3*time.Second)
 				check(ok, "nomatch")
+			}
+			endedOnce = true
+		},
+		"stampede": func(t *rapid.T) {
+			// many associations end while the loop is busy handing datagrams to a client whose handler does not read:
+			// their close notifications pile up, and the busy client's own association ends last
+			if stampeded {
+				t.Skip("once per history")
+			}
+			stampeded = true
+			c := rapid.IntRange(0, nclients-1).Draw(t, "c")
+			others := rapid.IntRange(8, 14).Draw(t, "others")
+			wait := rapid.IntRange(10, 30).Draw(t, "endAfterMs")
+			e.history = append(e.history, fmt.Sprintf("stampede(c%d,%d others end after %dms)", c, others, wait))
+			e.ended[c] = true
+			for o := 0; o < others && !wedged; o++ {
+				e.ended[100+o] = true
+				check(e.send(100+o, fmt.Sprintf("d%d", wait), 10), "stampede-others")
+			}
+			check(e.send(c, fmt.Sprintf("d%d", 2*wait), 10), "stampede-busy-client")
+			for i := 0; i < 8 && !wedged; i++ {
+				check(e.send(c, "", 10), "stampede-queue")
 			}
 			endedOnce = true
 		},
@@ -320,6 +350,9 @@ func runHistory(t *rapid.T, idle time.Duration) {
 				t.Skip("idle expiry cannot be shortened on this tree")
 			}
 			e.history = append(e.history, "idle-expiry")
+			for c := 0; c < nclients; c++ {
+				e.ended[c] = true
+			}
 			time.Sleep(idle + idle/2)
 			endedOnce = true
 		},
@@ -357,6 +390,43 @@ func runHistory(t *rapid.T, idle time.Duration) {
 	if p := e.panicked(); p != nil {
 		fail("loop-panic", "the UDP server loop panicked: %v", p)
 		return
+	}
+	// a client whose association was never ended has a handler that keeps reading: every datagram the loop took for it
+	// arrives (the loop waits for room in the association's queue, it does not drop)
+	for c := 0; c < nclients; c++ {
+		if e.ended[c] {
+			continue
+		}
+		missing := func() (m []int) {
+			e.w.mu.Lock()
+			defer e.w.mu.Unlock()
+			got := map[int]bool{}
+			for _, d := range e.w.deliveries {
+				if d.tagC == c {
+					got[d.seq] = true
+				}
+			}
+			for q := 0; q < e.seq[c]; q++ {
+				if !got[q] {
+					m = append(m, q)
+				}
+			}
+			return
+		}
+		if !hx.Eventually(2*time.Second, 5*time.Millisecond, func() bool { return len(missing()) == 0 }) {
+			m := missing()
+			// a real defect reproduces at will on a fresh server with the same datagram sizes
+			again := confirmUndelivered(t, idle, e.sizes[c])
+			current.Store(e.w) // the reproduction ran on servers (and recording worlds) of its own
+			if again < 2 {
+				hx.Class("C09/loss-not-reproduced", 1)
+				continue
+			}
+			fail("datagram-not-delivered", "client c%d has had one association all along, whose handler keeps reading, yet of its %d datagrams %d never arrived (first: seq %d, %d bytes)", c, e.seq[c], len(m), m[0], e.sizes[c][m[0]])
+			_ = e.pc.Close()
+			return
+		}
+		hx.Class("C09/clients-with-complete-delivery-checked", 1)
 	}
 	// shutdown: the loop ends with an error, not a panic
 	_ = e.pc.Close()
@@ -465,6 +535,35 @@ func confirmLoss(t *rapid.T, idle time.Duration) int {
 				lost++
 				break
 			}
+		}
+		_ = e.pc.Close()
+		time.Sleep(5 * time.Millisecond)
+	}
+	return lost
+}
+
+// confirmUndelivered sends datagrams of the given sizes from one client to a fresh server, three times, and reports how
+// often some of them did not arrive within a second.
+func confirmUndelivered(t *rapid.T, idle time.Duration, sizes []int) int {
+	lost := 0
+	for r := 0; r < 3; r++ {
+		e := start(t, idle)
+		for _, n := range sizes {
+			e.send(0, "", n)
+		}
+		complete := hx.Eventually(time.Second, 5*time.Millisecond, func() bool {
+			e.w.mu.Lock()
+			defer e.w.mu.Unlock()
+			n := 0
+			for _, d := range e.w.deliveries {
+				if d.tagC == 0 {
+					n++
+				}
+			}
+			return n >= len(sizes)
+		})
+		if !complete {
+			lost++
 		}
 		_ = e.pc.Close()
 		time.Sleep(5 * time.Millisecond)
